@@ -59,12 +59,12 @@ def _is_fresh(r, depth=0):
 _LOOPSYM = re.compile(r"^\$([A-Za-z_][A-Za-z_0-9]*)(#\d+)?$")
 
 
-def canon(r, loopvars):
+def canon(r, loopvars, memo=None):
     """Canonical spelling of idioms that denote the same thing:
        S[i] with i the variable of `for i in range(len(S))`   ->  elem(S) of `for x in S`
        key in d.keys()                                         ->  key in d"""
     if isinstance(r, list):
-        return form.apply("pylist", [tuple(canon(x, loopvars) for x in r)]) if all(isinstance(x, (Rat, list)) for x in r) else Rat.sym("opaque_list")
+        return form.apply("pylist", [tuple(canon(x, loopvars, memo) for x in r)]) if all(isinstance(x, (Rat, list)) for x in r) else Rat.sym("opaque_list")
     if not isinstance(r, Rat):
         return r
 
@@ -133,10 +133,10 @@ def canon(r, loopvars):
                 if n is not None and not any(a2.func in ("$i", "$_", "$k", "$j") for a2 in body.atoms(deep=True)):
                     return form.apply("repeat", [body, n])
         if at.func.startswith("expr:") and " in " in at.func and ".keys()" in at.func:
-            return form.apply(at.func.replace(".keys()", ""), [])
+            return form.apply(at.func.replace(".keys()", ""), list(at.args))
         return None
     try:
-        return form.map_atoms(r, fn)
+        return form.map_atoms(r, fn, memo)
     except form.Undefined:
         return r
 
@@ -198,6 +198,7 @@ def _leaves(v, pre):
 
 class Summary(object):
     def __init__(self):
+        self.raw = []           # (category, label, parts (Rat / tuple / str), formula) before any splitting: for the case analysis
         self.returns = {}       # value key -> [formula]
         self.errors = []        # formulas
         self.attrs = {}         # attribute -> {value key -> [formula]}
@@ -246,7 +247,7 @@ def _summarize(prog, qual, own=True):
     m = prog.module(".".join(parts[:2]))
     ev = symeval.Evaluator(m, max_paths=512)
     ev.loop_mode, ev.merge_ifs, ev.record = "unroll2", True, True
-    ev.no_thread_prefixes = ()
+    ev.no_thread_prefixes = ("self.",)      # stores into attributes are effects (events), not threaded into ever larger values
     try:
         outs = ev.run(f)
     except symeval.Undecided as e:
@@ -267,14 +268,20 @@ def _summarize(prog, qual, own=True):
                 loopvars[st.target.id] = bound
     # canonical names for loop index symbols (by order of the loops) and for dictionaries allocated in the function (by order of
     # allocation): the names a programmer gave to locals must not matter
-    order = []
+    ren = {}
+    import hashlib
     for lp in ev.loops:
         st = lp["node"]
         if isinstance(st, ast.For):
-            for t in ast.walk(st.target):
-                if isinstance(t, ast.Name) and t.id not in order:
-                    order.append(t.id)
-    loopvars["__rename__"] = {nm: "L%d" % k for k, nm in enumerate(order)}
+            names = [t.id for t in ast.walk(st.target) if isinstance(t, ast.Name)]
+            it = lp["iter"]
+            ik = it.key() if isinstance(it, Rat) else repr(it)
+            # a loop is identified by what it iterates over and by its nesting depth (not by the name of its variable, nor by the order
+            # in which branches of an if are written); sequential loops over the same thing may share the symbol (alpha-renaming)
+            tag = "L" + hashlib.md5(ik.encode()).hexdigest()[:8] + "d%d" % lp.get("depth", 0)
+            for j, nm in enumerate(names):
+                ren.setdefault(nm, "%s_%d" % (tag, j))
+    loopvars["__rename__"] = ren
     dnames = []
     for e in ev.events:
         if e["kind"] == "assign" and isinstance(e.get("value"), Rat):
@@ -288,7 +295,7 @@ def _summarize(prog, qual, own=True):
         known = {}
         for c, pol in conds:
             if isinstance(c, Rat):
-                c = canon(c, loopvars)
+                c = canon(c, loopvars, shared_memo)
                 known[c.key()] = pol
                 ca = c.as_atom()
                 if ca is not None and ((ca.func == "and" and pol) or (ca.func == "or" and not pol)):
@@ -297,14 +304,30 @@ def _summarize(prog, qual, own=True):
                             known[x.key()] = pol
         return known
 
+    shared_memo = {}
+
     def cn(v, conds=()):
-        w = canon(v, loopvars)
+        w = canon(v, loopvars, shared_memo)
         # (simplify_conditionals is available but not applied: hoisted versus nested conditions need a full case split to be
         #  normalised consistently on both sides, which is too expensive on the large functions; such pairs are left "not proven")
         return w
 
     def cform(conds):
         return boolq.conj([(cn(c) if isinstance(c, Rat) else c, pol) for c, pol in conds])
+    def ckey(x, conds=()):
+        """Canonical key of a value, an index tuple or a python list of values."""
+        if isinstance(x, Rat):
+            return cn(x, conds).key()
+        if isinstance(x, (tuple, list)):
+            return "(" + ",".join(ckey(y, conds) for y in x) + ")"
+        return repr(x)
+    def craw(x):
+        """Canonical VALUE (not key) of a value / index tuple / list, for the case analysis."""
+        if isinstance(x, Rat):
+            return cn(x)
+        if isinstance(x, (tuple, list)):
+            return tuple(craw(y) for y in x)
+        return x
     initial = set()
     for o in outs:
         pre = cform(o.conds)
@@ -313,30 +336,37 @@ def _summarize(prog, qual, own=True):
             continue
         if o.kind in ("return", "fallthrough"):
             v = cn(o.value, o.conds) if o.kind == "return" else Rat.sym("None")
+            S.raw.append(("return", "", (v,), pre))
             for c, leaf in _leaves(v, pre):
                 S.add(S.returns, leaf, c)
         for k, v in (o.env or {}).items():
             if k.startswith("self.") and not (isinstance(v, Rat) and v.key() == "$" + k):
-                for c, leaf in _leaves(cn(v, o.conds), pre):
+                cv = cn(v, o.conds)
+                S.raw.append(("attr", k, (cv,), pre))
+                for c, leaf in _leaves(cv, pre):
                     S.add(S.attrs.setdefault(k, {}), leaf, c)
     for e in ev.events:
         pre = cform(e["conds"])
         if e["kind"] == "store":
             old = e.get("old")
-            if isinstance(old, list) or _is_fresh(old):
+            on_self = str(e.get("root") or "").startswith("self.")
+            # (stores into attributes of self are never threaded into the attribute's value by the evaluator, so they are always effects,
+            #  also when the object was created in this function)
+            if not on_self and (isinstance(old, list) or _is_fresh(old)):
                 continue
-            idx = tuple(cn(i, e["conds"]).key() if isinstance(i, Rat) else repr(i) for i in e["indices"])
-            val = cn(e["value"], e["conds"])
-            key = ("store", cn(old, e["conds"]).key() if isinstance(old, Rat) else repr(old), idx, val.key() if isinstance(val, Rat) else repr(val))
+            idx = tuple(ckey(i, e["conds"]) for i in e["indices"])
+            key = ("store", ckey(old, e["conds"]), idx, ckey(e["value"], e["conds"]))
             S.effects.setdefault(key, []).append(pre)
+            S.raw.append(("effect", "store", (craw(old), craw(tuple(e["indices"])), craw(e["value"])), pre))
         elif e["kind"] == "inplace":
             before = e.get("before")
-            if isinstance(before, list) or _is_fresh(before) or (isinstance(before, Rat) and before.const_value() is not None):
+            on_self = str(e.get("name") or "").startswith("self.")
+            if not on_self and (isinstance(before, list) or _is_fresh(before) or (isinstance(before, Rat) and before.const_value() is not None)):
                 continue
             op = e.get("operand")
-            key = ("inplace", type(e["node"].op).__name__, cn(before, e["conds"]).key() if isinstance(before, Rat) else repr(before),
-                   cn(op, e["conds"]).key() if isinstance(op, Rat) else repr(op))
+            key = ("inplace", type(e["node"].op).__name__, ckey(before, e["conds"]), ckey(op, e["conds"]))
             S.effects.setdefault(key, []).append(pre)
+            S.raw.append(("effect", "inplace:" + type(e["node"].op).__name__, (craw(before), craw(op)), pre))
         elif e["kind"] == "call" and e.get("stmt"):
             name = e["name"] or ""
             node = e["node"]
@@ -360,9 +390,10 @@ def _summarize(prog, qual, own=True):
                     name = "m:%s@%s" % (".".join(reversed(chain)), cn(rv, e["conds"]).key())
                 elif isinstance(e.get("recv"), Rat):
                     name = "m:%s@%s" % (".".join(reversed(chain)), cn(e["recv"], e["conds"]).key())
-            args = tuple(cn(a, e["conds"]).key() if isinstance(a, (Rat, list)) else repr(a) for a in e["args"])
-            kws = tuple(sorted((k, cn(v, e["conds"]).key() if isinstance(v, (Rat, list)) else repr(v)) for k, v in e["kwargs"].items()))
+            args = tuple(ckey(a, e["conds"]) for a in e["args"])
+            kws = tuple(sorted((k, ckey(v, e["conds"])) for k, v in e["kwargs"].items()))
             S.effects.setdefault(("call", name, args, kws), []).append(pre)
+            S.raw.append(("effect", "call:" + name, (craw(tuple(e["args"])), craw(tuple(v for k, v in sorted(e["kwargs"].items()))), tuple(sorted(e["kwargs"]))), pre))
     return S
 
 
@@ -390,6 +421,8 @@ def _match_tables(t1, t2, vals1, vals2, what):
         for a, b in pairs.items():
             t2[a] = t2.pop(b)
     for k in t1:
+        if sorted(repr(x) for x in t1[k]) == sorted(repr(x) for x in t2[k]):
+            continue                        # literally the same conditions
         f1, f2 = boolq.disj(t1[k]), boolq.disj(t2[k])
         try:
             w = boolq.differ(f1, f2, limit=18)
@@ -405,12 +438,13 @@ def compare(S1, S2):
     r = _match_tables(S1.returns, S2.returns, S1.values, S2.values, "returned values")
     if r:
         return r
-    try:
-        w = boolq.differ(boolq.disj(S1.errors), boolq.disj(S2.errors), limit=18)
-    except boolq.TooBig as e:
-        return "error exits: too large (%s)" % e
-    if w is not None:
-        return "error exits under different conditions (%s)" % boolq.show(w)[:200]
+    if sorted(repr(x) for x in S1.errors) != sorted(repr(x) for x in S2.errors):
+        try:
+            w = boolq.differ(boolq.disj(S1.errors), boolq.disj(S2.errors), limit=18)
+        except boolq.TooBig as e:
+            return "error exits: too large (%s)" % e
+        if w is not None:
+            return "error exits under different conditions (%s)" % boolq.show(w)[:200]
     if set(S1.attrs) != set(S2.attrs):
         return "different attributes assigned: %s" % sorted(set(S1.attrs) ^ set(S2.attrs))
     for a in S1.attrs:
@@ -433,3 +467,98 @@ def equivalent(prog_ref, prog_cur, qual):
         return None, str(e)
     r = compare(s1, s2)
     return (r is None), r
+
+
+_PROP_CACHE = {}
+
+
+def _prop_of(c):
+    k = c.key()
+    f = _PROP_CACHE.get(k)
+    if f is None:
+        f = boolq.prop(c)
+        if len(_PROP_CACHE) > 20000:
+            _PROP_CACHE.clear()
+        _PROP_CACHE[k] = f
+    return f
+
+
+def _cond_atoms(x, acc):
+    """Count the atomic propositions of the conditions of conditional expressions inside a value."""
+    if isinstance(x, Rat):
+        for at in x.atoms(deep=True):
+            if at.func == "ifexp" and at.args and isinstance(at.args[0], Rat):
+                if len(at.args[0].key()) < 6000:
+                    for a in boolq.atoms_of(_prop_of(at.args[0])):
+                        acc[a] = acc.get(a, 0) + 1
+    elif isinstance(x, tuple):
+        for y in x:
+            _cond_atoms(y, acc)
+
+
+def _resolve(x, penv, memo):
+    """Collapse the conditional expressions whose condition is decided by the assignment penv {atomic proposition: bool}."""
+    if isinstance(x, Rat):
+        def fn(at):
+            if at.func == "ifexp" and len(at.args) == 3 and isinstance(at.args[0], Rat):
+                f = boolq.partial(_prop_of(at.args[0]), penv)
+                if f[0] == "const":
+                    br = at.args[1] if f[1] else at.args[2]
+                    return br if isinstance(br, Rat) else None
+            return None
+        try:
+            return form.map_atoms(x, fn, memo)
+        except form.Undefined:
+            return x
+    if isinstance(x, tuple):
+        return tuple(_resolve(y, penv, memo) for y in x)
+    return x
+
+
+def _rawkey(x):
+    if isinstance(x, Rat):
+        return x.key()
+    if isinstance(x, tuple):
+        return "(" + ",".join(_rawkey(y) for y in x) + ")"
+    return repr(x)
+
+
+def compare_by_cases(S1, S2, max_atoms=8, budget=60):
+    """Fallback when the direct comparison fails: conditions can be hoisted (two returns) on one side and nested (a conditional
+    expression inside a value) on the other, or written as different but equivalent compound conditions.  The atomic propositions
+    that occur in the conditions of conditional expressions are fixed to every feasible combination of truth values (at most
+    2**max_atoms cases); in each case the decided conditional expressions collapse on both sides, the path conditions are simplified
+    under the same assignment, and the collapsed summaries are compared as usual.  None if equal in every case, else a reason."""
+    import itertools
+    import time
+    t0 = time.time()
+    counts = {}
+    for S in (S1, S2):
+        for cat, label, parts, pre in S.raw:
+            _cond_atoms(parts, counts)
+    names = sorted(counts, key=lambda k: (-counts[k], len(k)))[:max_atoms]
+    if not names:
+        return "no conditional expressions to split on"
+    ncase = 0
+    for vals in itertools.product((False, True), repeat=len(names)):
+        penv = dict(zip(names, vals))
+        if not boolq._feasible(penv):
+            continue
+        if time.time() - t0 > budget:
+            return "case analysis exceeded its time budget after %d cases" % ncase
+        ncase += 1
+        tabs = []
+        for S in (S1, S2):
+            memo = {}
+            tab = {}
+            for cat, label, parts, pre in S.raw:
+                f = boolq.partial(pre, penv)
+                if f[0] == "const" and not f[1]:
+                    continue
+                rp = _resolve(parts, penv, memo)
+                tab.setdefault(repr((cat, label, _rawkey(rp))), []).append(f)
+            tabs.append(tab)
+        r = _match_tables(tabs[0], tabs[1], {}, {}, "case %s" % (vals,))
+        if r:
+            return r
+    return None
